@@ -47,7 +47,67 @@ fn order_programs() -> Vec<(String, String)> {
     for (n, s) in snippets {
         v.push((format!("order.{}", n), (*s).to_string()));
     }
+    // programs that walk many freshly allocated objects through the built-ins that keep
+    // visited-sets / recursion guards
+    for n in [50usize, 400, 2000] {
+        v.push((format!("walk.json{}", n), format!("var a = []; for (var i = 0; i < {n}; i++) a.push({{i: i, in: {{j: [i, {{k: i}}]}}}}); var s = JSON.stringify(a); [s.length, s.slice(0, 40)].join('|')")));
+        v.push((format!("walk.join{}", n), format!("var a = []; for (var i = 0; i < {n}; i++) a.push([i, [i + 1, [i + 2]]]); var s = a.join(';'); [s.length, String([[1, [2]], 3])].join('|')")));
+        v.push((format!("walk.repaired-cycle{}", n), format!("var a = []; for (var i = 0; i < {n}; i++) a.push({{i: i}}); a[{n} - 1].loop = a; var r = []; try {{ JSON.stringify(a); }} catch (e) {{ r.push(e.name); }} delete a[{n} - 1].loop; r.push(JSON.stringify(a).length); r.push(a.join().length); r.join('|')")));
+    }
     v
+}
+
+/// Interpreters that lived and died on this thread before the program under test: each
+/// leaves a built-in through a failure or early-exit path (deep inside JSON / join / sort /
+/// iteration protocols, in callbacks, getters, proxies), some caught by the script, some
+/// ending the run, some reported to the host only. Anything such a path forgets to undo in
+/// state that outlives the interpreter (thread-locals, statics, caches keyed by address)
+/// shows up as a changed trace of the unrelated programs run afterwards.
+const HOSTILE_PREDECESSORS: &[(&str, &str)] = &[
+    ("cyclic-json-caught", "var root = {}, cur = root; for (var i = 0; i < $N; i++) { cur.next = (i % 2) ? [{}] : {}; cur = (i % 2) ? cur.next[0] : cur.next; } cur.back = root; var r; try { r = JSON.stringify(root); } catch (e) { r = e.name; } r"),
+    ("cyclic-json-uncaught", "var keep = []; for (var i = 0; i < $N; i++) keep.push({i: i, a: [i]}); var o = {list: keep}; keep[$N - 1].a.push(o); JSON.stringify(o)"),
+    ("json-getter-throws", "var items = []; for (var i = 0; i < $N; i++) items.push({i: i, inner: {j: [i]}}); Object.defineProperty(items[$N - 1].inner, 'bad', {enumerable: true, get: function(){ throw new RangeError('getter'); }}); var r; try { r = JSON.stringify({items: items}); } catch (e) { r = e.name; } r"),
+    ("json-tojson-throws", "var items = []; for (var i = 0; i < $N; i++) items.push({i: i}); items[$N >> 1].toJSON = function(){ throw new Error('tojson'); }; var r; try { r = JSON.stringify([items, {deep: {deeper: items}}]); } catch (e) { r = e.message; } r"),
+    ("json-replacer-throws", "var n = 0; var r; try { r = JSON.stringify({a: {b: {c: [1, 2, {d: 1}]}}}, function(k, v){ if (++n > $N % 7 + 3) throw new TypeError('replacer'); return v; }); } catch (e) { r = e.name; } r"),
+    ("json-parse-reviver-throws", "var r; try { r = JSON.parse('{\"a\":{\"b\":[1,2,{\"c\":3}]}}', function(k, v){ if (k === 'c') throw new Error('reviver'); return v; }); } catch (e) { r = e.message; } r"),
+    ("join-cyclic", "var a = [1, 2], b = [a, 3]; a.push(b); var deep = []; var cur = deep; for (var i = 0; i < $N; i++) { var nx = [i]; cur.push(nx); cur = nx; } cur.push(deep); [a.join(), String(b), deep.join('-').length].join('|')"),
+    ("join-tostring-throws", "var list = []; for (var i = 0; i < $N; i++) list.push([i, [i]]); list[$N - 1][1].push({toString: function(){ throw new Error('ts'); }}); var r; try { r = list.join(); } catch (e) { r = e.message; } r"),
+    ("sort-comparator-throws", "var a = []; for (var i = 0; i < $N; i++) a.push({k: ($N - i) % 17}); var n = 0; var r; try { a.sort(function(x, y){ if (++n > $N) throw new Error('cmp'); return x.k - y.k; }); r = 'sorted'; } catch (e) { r = e.message; } r"),
+    ("iteration-throws", "var r = []; try { [1, 2, 3].map(function(x){ if (x === 2) throw new Error('map'); return x; }); } catch (e) { r.push(e.message); } try { new Map([[1, 2]]).forEach(function(){ throw new Error('foreach'); }); } catch (e) { r.push(e.message); } try { Array.from({length: 3}, function(_, i){ if (i) throw new Error('from'); return i; }); } catch (e) { r.push(e.message); } try { for (var x of (function*(){ yield 1; throw new Error('gen'); })()) { r.push(x); } } catch (e) { r.push(e.message); } r.join()"),
+    ("proxy-traps-throw", "var p = new Proxy({a: 1, b: {c: 2}}, { ownKeys: function(){ throw new Error('ownKeys'); }, get: function(t, k){ if (k === 'b') throw new Error('get'); return t[k]; } }); var r = []; try { Object.keys(p); } catch (e) { r.push(e.message); } try { JSON.stringify(p); } catch (e) { r.push(e.message); } try { p.b; } catch (e) { r.push(e.message); } r.join()"),
+    ("deep-recursion-caught", "function f(n){ return n === 0 ? 0 : 1 + f(n - 1); } var r; try { r = f(100000); } catch (e) { r = e.name; } r"),
+    ("abandoned-generators-and-promises", "function* g(){ try { yield {a: 1}; yield {b: 2}; } finally { } } var it = g(); it.next(); var pending = new Promise(function(){}); pending.then(function(){ return 1; }); Promise.reject(new Error('unhandled')); var s = new Set(); for (var i = 0; i < $N; i++) s.add({i: i}); 'left'"),
+    ("regexp-and-string-failures", "var r = []; try { new RegExp('(', 'g'); } catch (e) { r.push(e.name); } try { 'x'.repeat(-1); } catch (e) { r.push(e.name); } try { 'abc'.replace(/b/g, function(){ throw new Error('replace'); }); } catch (e) { r.push(e.message); } try { null.x; } catch (e) { r.push(e.name); } try { (123).toFixed(1000); } catch (e) { r.push(e.name); } r.join()"),
+    ("class-and-symbol-failures", "class A { constructor(){ throw new Error('ctor'); } } class B extends A { constructor(){ super(); this.x = 1; } } var r = []; try { new B(); } catch (e) { r.push(e.message); } var o = {}; o[Symbol.toPrimitive] = function(){ throw new Error('prim'); }; try { o + 1; } catch (e) { r.push(e.message); } try { `${o}`; } catch (e) { r.push(e.message); } r.join()"),
+    ("throws-at-top", "var junk = []; for (var i = 0; i < $N; i++) junk.push({i: i, s: 'x' + i}); null.boom;"),
+];
+
+/// Run every hostile predecessor once (sizes vary with `round`), each in its own
+/// interpreter that is dropped afterwards; the last values of the cyclic ones are also
+/// handed to the host-side JSON export, whose failure only the host sees.
+fn run_hostile_predecessors(round: usize, keep_alive: &mut Vec<Stepper>) -> usize {
+    let mut ran = 0;
+    for (k, (_, src)) in HOSTILE_PREDECESSORS.iter().enumerate() {
+        let n = [12usize, 40, 90, 160, 300][(round + k) % 5];
+        let src = src.replace("$N", &n.to_string());
+        let mut s = Stepper::start(&src, if k % 3 == 0 { Some(1) } else { None }, 2_000_000);
+        while s.step() {}
+        ran += 1;
+        // a host-side conversion of a cyclic value: the error goes to the host only
+        let mut h = tsrun::Interpreter::new();
+        if let Ok(tsrun::StepResult::Complete(v)) = h.eval(&format!("var c = {{list: []}}; for (var i = 0; i < {}; i++) c.list.push({{i: i, up: c}}); c", n), None) {
+            let _ = tsrun::js_value_to_json(v.value());
+            ran += 1;
+        }
+        // some predecessors stay alive a little longer than others
+        if (round + k) % 4 == 0 {
+            keep_alive.push(s);
+            if keep_alive.len() > 3 {
+                keep_alive.remove(0);
+            }
+        }
+    }
+    ran
 }
 
 /// Module programs: the order of a namespace object's members and of the host-visible export
@@ -274,6 +334,28 @@ impl Check for C12 {
         // (c) interleavings in one thread
         let mut rng = Rng::derive("c12-interleave", ctx.seed, idx as u64);
         interleave(progs, &mut rng, &mut r, &first);
+        // (e) lifetimes: the same programs after other interpreters lived, failed inside
+        // built-ins and died on this thread
+        {
+            let mut keep_alive: Vec<Stepper> = Vec::new();
+            for round in 0..3 {
+                let ran = run_hostile_predecessors(round + idx, &mut keep_alive);
+                r.stat("hostile_predecessor_runs", ran as i64);
+                let after = unit_traces(progs);
+                for (i, (a, b)) in first.iter().zip(after.iter()).enumerate() {
+                    r.evaluations += 1;
+                    r.nontrivial += 1;
+                    r.stat("runs_after_hostile_predecessors", 1);
+                    if a != b {
+                        r.violate(
+                            format!("lifetime|{}", progs[i].0),
+                            format!("{}: trace differs after {} other interpreters failed inside built-ins and were dropped on the same thread (round {}): {}", progs[i].0, ran, round, truncate(&solo(&progs[i].1, None), 200)),
+                            json!({"id": progs[i].0}),
+                        );
+                    }
+                }
+            }
+        }
         // (d) concurrent threads, one interpreter each
         let srcs: Vec<String> = progs.iter().map(|p| p.1.clone()).collect();
         let handles: Vec<std::thread::JoinHandle<Vec<String>>> = (0..4)
